@@ -250,4 +250,15 @@ PROPS = {
         "exhaustive": {"quick": True, "thorough": True},
         "assumptions": ["Spaces(0) is outside (assert! in the code); continuation lines starting with '#' are outside"],
     },
+    "C18": {
+        "claimed": True,
+        "technique": "TLA+ enumeration of the value spaces and keyword tables of the typed field values (no state machine: pure encode/decode); every value and rejection probe replayed on the real FromStr/Display",
+        "level_text": "spec/MCCodecs.tla holds the documented keyword tables of the seven enumerations and the value spaces of the record and prefixed types; TLC enumerates every keyword, every rejection probe (each keyword of every other table plus mangled forms) and every record value within scope; the harness checks from_str(to_string(v)) == v, that printing the parsed value gives the same text again, and that foreign keywords are rejected. This property is the thinnest fit for a TLA+ specification (DESIGN.md section 4): the spec contributes the tables and the exhaustive case list, nothing stateful is claimed.",
+        "level_note": "bounded scopes: 4 tokens (ASCII, hex, path, non-ASCII), sizes {0, 1, 2^31-1, 2^63}, 3 URLs x 2 branches x 2 subpaths; Urgency accepts case variants (not probed); parse_origin/format_origin are crate-private and exercised through the DEP-3 accessors (C15)",
+        "stages": [{"kind": "tlc_replay", "name": "codec_values", "module": "MCCodecs.tla", "cfg": "MCCodecs.cfg", "stage": "codecs",
+                    "workers": {"quick": 4, "thorough": 8}, "timeout": {"quick": 300, "thorough": 600}}],
+        "rule": "every enumerated value / keyword / rejection probe; all distinct",
+        "exhaustive": {"quick": True, "thorough": True},
+        "assumptions": ["tokens are whitespace-free and do not contain the separator of their record ('=' in package-list extras)"],
+    },
 }
